@@ -185,6 +185,8 @@ Section Count.
       rewrite Hl. unfold weights_of in Ew. destruct w. inv Ew. apply map_length.
       destruct (its pop) eqn:E1; [|discriminate]. destruct (opt_list (map ifit l)) eqn:E2; inv Ew.
       apply opt_list_length in E1, E2. rewrite !map_length in *. lia.
+      destruct (its pop) eqn:E1; [|discriminate]. destruct (opt_list (map ifit l)) eqn:E2; inv Ew.
+      apply opt_list_length in E1, E2. rewrite !map_length in *. lia.
     - destruct (top_bottom true _ cluster pop) eqn:E; simpl in H; inv H.
       apply top_bottom_count in E. rewrite E. destruct cluster; auto.
     - destruct (top_bottom false _ cluster pop) eqn:E; simpl in H; inv H.
